@@ -2,7 +2,7 @@
    name.  This is what is extracted; the correspondence harness calls these
    and nothing else. *)
 From AK Require Import Base.Prelude Base.Sx Bytes.Text Bytes.FabHeader Bytes.BinFile
-  Reader.Select Reader.BoxRead Reader.Level Plotfile.TextHeader Taste.Taste Writers.Colander Writers.Combine Writers.Chef
+  Reader.Select Reader.BoxRead Reader.Level Plotfile.TextHeader Taste.Taste Writers.Colander Writers.Combine Writers.Chef Writers.Chk2plt
   Array.Paint Mandoline.Plate Whip.Whip Pestle.Pestle Point.PointQuery.
 
 Definition as_Zs := as_list as_Z.
@@ -377,6 +377,23 @@ Definition e_chef (s : sx) : sx :=
   | _ => bad_request
   end.
 
+(* ---- C17: chk2plt, one level ----
+   request: (boxes state_files state_cells gradp_files gradp_cells ir_files ir_cells do_gradp do_ir floored y_start ns) *)
+Definition e_chk2plt_level (s : sx) : sx :=
+  match s with
+  | SL [boxes; sf; sc; gf; gc; rf; rc; dg; dr; fl; SZ ys; SZ ns] =>
+      req (do boxes <- as_list (as_pair as_Zs as_Zs) boxes;
+           do sf <- dec_disk sf; do sc <- dec_cells sc; do gf <- dec_disk gf; do gc <- dec_cells gc;
+           do rf <- dec_disk rf; do rc <- dec_cells rc; do dg <- as_bool dg; do dr <- as_bool dr;
+           do fl <- as_opt (as_list as_Bs) fl;
+           Some (boxes, sf, sc, gf, gc, rf, rc, dg, dr, fl))
+          (fun '(boxes, sf, sc, gf, gc, rf, rc, dg, dr, fl) =>
+             of_result (fun r => let '(files, cells, mins, maxs) := r in
+                                 SL [enc_disk files; enc_cells cells; of_list (of_list SB) mins; of_list (of_list SB) maxs])
+                       (convert_level boxes sf sc gf gc rf rc dg dr fl ys ns))
+  | _ => bad_request
+  end.
+
 Definition entries : list (string * (sx -> sx)) :=
   [ ("getitem", e_getitem);
     ("iter_all", e_iter_all);
@@ -399,7 +416,8 @@ Definition entries : list (string * (sx -> sx)) :=
     ("pestle", e_pestle);
     ("point", e_point);
     ("combine", e_combine);
-    ("chef", e_chef)
+    ("chef", e_chef);
+    ("chk2plt_level", e_chk2plt_level)
   ]%string.
 
 Fixpoint find_entry (name : string) (l : list (string * (sx -> sx))) : option (sx -> sx) :=
